@@ -1,19 +1,32 @@
 """C20 — HTTP server responses are framed exactly; headers cannot be injected.
 
 Engine E3 (net), shared HTTP harness.  1-4 pipelined requests (GET/HEAD/POST,
-HTTP/1.1, the last possibly HTTP/1.0 or Connection: close) reach a real
-HTTPChannel under tape-chosen segmentation; for each, the application sets a
-status and reason, headers and cookies from hostile alphabets (bytes and text,
-with CR, LF, NUL, ';', non-ASCII), then performs 0-6 writes spread over simulated
-time (directly or through a registered push producer, with a small transport
-buffer so that the producer is paused/resumed) and finishes.  Mis-framing of one
-response desynchronises the following ones.
+HTTP/1.1 or - mostly the last one - HTTP/1.0, with or without a request-side
+Connection header: close / keep-alive in any case, alone or in a comma list)
+reach a real HTTPChannel under tape-chosen segmentation; for each, the
+application sets a status and reason, headers and cookies from hostile alphabets
+(bytes and text, with CR, LF, NUL, ';', non-ASCII), then performs 0-6 writes
+spread over simulated time (directly or through a registered push producer, with
+a small transport buffer so that the producer is paused/resumed) and finishes.
+Header operations are setHeader / addRawHeader / setRawHeaders with a list, often
+on a field that already has values (any case); some set calls and addCookie calls
+carry text that cannot be encoded (lone surrogates) - first, in the middle or
+last of several values/components - and must be REFUSED without any effect on
+what is sent.  Mis-framing of one response desynchronises the following ones.  In
+a share of the runs the transport reports the end of the connection synchronously
+from inside loseConnection() (as in-memory transports do).
 
 Oracle: the server's output is parsed by the reference parser (models/http1.py)
 and, where every value is within what h11 accepts, by h11 (client role), into
-exactly one response per request, in order, with the status set, exactly the
-headers set (line breaks -> spaces; invalid names refused at set time), body ==
-concatenation of the writes, no body for HEAD/204/304, framing consistent.
+exactly one response per request that reached the application, in order, with the
+status set, exactly the headers set by the calls that succeeded (line breaks ->
+spaces; invalid names refused at set time; a refused call leaves earlier values
+in place and emits nothing), body == concatenation of the writes, no body for
+HEAD/204/304, framing consistent: chunked or Content-Length, else the response is
+the last one AND the server closed the connection after it.  Every request up to
+and including the first one that allows the server to close (HTTP/1.0, a close
+token) must be answered; whether the server answers later ones is persistence,
+not framing, and gets no verdict.
 """
 import re
 
@@ -37,15 +50,23 @@ COMPONENTS = {
     "stub": ["TCP transport with a small send buffer (detsim.net.SimTransport, hwm)", "the client (scripted pipelined requests, reads at tape-chosen times)",
              "h11 0.16 client role and models/http1.py as independent parsers (oracle side)"],
 }
-RULE = ("run = 1-4 pipelined requests; per response a tape-chosen status, optional hostile reason, 0-4 header operations (setHeader/addRawHeader, "
-        "bytes or text names and values), 0-2 cookies with hostile attributes, optional explicit Content-Length, 0-6 writes (direct or via a push "
-        "producer) interleaved with request deliveries, client reads and clock advances; 7 runs out of 8 never put CR/LF into a reason phrase; "
+RULE = ("run = 1-4 pipelined requests (the last: HTTP/1.0 or Connection: close in half of the runs; any other: HTTP/1.0 with p=0.06; a Connection header "
+        "with close / keep-alive tokens in any case or in a list with p=0.3 on the last and on HTTP/1.0 requests, 0.08 elsewhere); per response a "
+        "tape-chosen status, optional hostile reason, 0-4 header operations (setHeader/addRawHeader/setRawHeaders with 1-3 values, bytes or text names "
+        "and values, 35% on a field used before, 12% of the values / 30% of the lists with un-encodable text), 0-2 cookies with hostile attributes "
+        "(15% with one un-encodable component), optional explicit Content-Length (15%: followed by a refused re-declaration), 0-6 writes (direct or via "
+        "a push producer) interleaved with request deliveries, client reads and clock advances; 15% of the runs use a transport that reports the "
+        "loss from inside loseConnection(); 7 runs out of 8 never put CR/LF into a reason phrase; "
         "non-trivial = at least one response was completed and at least one hostile byte (CR, LF, NUL, ';', non-ASCII) was used in a header, cookie "
         "or reason")
 ASSUMPTIONS = ["status codes are three-digit final codes (200-599); reason phrases are bytes (the documented type)",
                "an explicit Content-Length set by the application equals the number of body bytes it then writes",
                "NUL / VT / FF inside a header value or reason: no verdict from h11 (it rejects them); the reference parser accepts them verbatim",
-               "the application does not set Content-Length/Transfer-Encoding/Connection/Set-Cookie through the hostile header generator"]
+               "the application does not set Content-Length/Transfer-Encoding/Connection/Set-Cookie through the hostile header generator "
+               "(a REFUSED re-declaration of Content-Length is made, because it must change nothing)",
+               "text that no encoding can carry (lone surrogates) is expected to be refused; should a set call accept it, that field gets no verdict",
+               "a Connection: close / keep-alive header added to the response by the server is not a header 'set' by the application and is allowed",
+               "how many requests are served after one that allows the server to close is not judged (persistence, not framing)"]
 cleanup = H.cleanup
 
 GOOD_NAMES = [b"X-A", b"x-b", b"Content-Type", b"ETag", b"X-Long-Header-Name", b"Location", b"x~!#$%&'*+.^_`|", b"Www-Authenticate", b"Cache-Control"]
@@ -101,6 +122,41 @@ def gen_name(sim):
     return sim.draw_choice(GOOD_NAMES, "gname") + sim.draw_choice([b":", b" ", b"\r\n", b"\n", b": x\r\nY"], "ntail")
 
 
+# text that no byte encoding of the response can carry: a refused set call must leave no trace
+UNENCODABLE = ["\udce9", "\ud800", "a\udfffb", "caf\udce9"]
+# request-side Connection header values: the close / keep-alive options in any case, alone and in comma lists
+CONN_VALUES = [b"keep-alive", b"close", b"Keep-Alive", b"CLOSE", b"KEEP-ALIVE", b"Close", b"keep-alive, close", b"close, TE", b"TE, keep-alive"]
+
+
+def gen_unencodable(sim):
+    return gen_text(sim, sim.draw_int(0, 3, "ulen")) + sim.draw_choice(UNENCODABLE, "unenc") + gen_text(sim, sim.draw_int(0, 2, "ulen2"))
+
+
+def encodable(v):
+    if isinstance(v, bytes):
+        return True
+    try:
+        v.encode("utf-8")
+        return True
+    except UnicodeEncodeError:
+        return False
+
+
+def vary_case(sim, name):
+    k = sim.draw_int(0, 2, "recase")
+    return name if k == 0 else name.lower() if k == 1 else name.upper()
+
+
+def conn_allows_close(version, conn):
+    """May the server end the connection after the response to this request?  (Only used to decide how many of the pipelined
+    requests MUST be answered; whether the server does close is persistence, not framing.)"""
+    if version != b"HTTP/1.1":
+        return True
+    if conn is None:
+        return False
+    return b"close" in [t.strip(b" \t").lower() for t in conn.replace(b" ", b",").split(b",")]
+
+
 def name_valid(name):
     try:
         b = name if isinstance(name, bytes) else name.encode("latin-1")
@@ -128,7 +184,19 @@ def gen_plan(sim, idx, avoid_reason_breaks):
         p.reason = r
     p.header_ops = []
     for _ in range(sim.draw_int(0, 4, "nops")):
-        p.header_ops.append((sim.draw_choice(["set", "add"], "hop"), gen_name(sim), gen_hostile_value(sim)))
+        op = sim.draw_choice(["set", "add", "set", "add", "setmulti"], "hop")
+        if p.header_ops and sim.draw_bool(0.35, "same-name"):
+            # the same field again (any case): replaces / extends / must survive a refused call
+            name = vary_case(sim, sim.draw_choice([o[1] for o in p.header_ops], "which-name"))
+        else:
+            name = gen_name(sim)
+        if op == "setmulti":
+            value = [gen_hostile_value(sim) for _ in range(sim.draw_int(1, 3, "nvalues"))]
+            if sim.draw_bool(0.3, "bad-in-list"):
+                value[sim.draw_int(0, len(value) - 1, "bad-pos")] = gen_unencodable(sim)
+        else:
+            value = gen_unencodable(sim) if sim.draw_bool(0.12, "bad-value") else gen_hostile_value(sim)
+        p.header_ops.append((op, name, value))
     p.cookies = []
     for _ in range(sim.draw_weighted([(0, 5), (1, 3), (2, 1)], "ncookies")):
         c = {"k": gen_hostile_value(sim), "v": gen_hostile_value(sim)}
@@ -138,6 +206,10 @@ def gen_plan(sim, idx, avoid_reason_breaks):
         c["secure"] = sim.draw_bool(0.3, "secure")
         c["httpOnly"] = sim.draw_bool(0.3, "httponly")
         c["sameSite"] = sim.draw_choice([None, "lax", b"Strict", "LAX"], "samesite")
+        if sim.draw_bool(0.15, "bad-cookie"):
+            # one component (first, middle or last of those given) cannot be encoded: the whole addCookie call is refused
+            keys = [k for k in ("k", "v", "expires", "domain", "path", "max_age", "comment", "sameSite") if c.get(k) is not None]
+            c[sim.draw_choice(keys[::-1], "bad-part")] = gen_unencodable(sim)
         p.cookies.append(c)
     p.writes = []
     for _ in range(sim.draw_int(0, 6, "nwrites")):
@@ -146,6 +218,8 @@ def gen_plan(sim, idx, avoid_reason_breaks):
         else:
             p.writes.append(sim.draw_choice(BODY_BITS, "wbit"))
     p.explicit_cl = sim.draw_bool(0.35, "explicit-cl")
+    p.cl_redeclared_badly = p.explicit_cl and sim.draw_bool(0.15, "cl-bad-redeclare")   # a refused second Content-Length set call
+    p.cl_bad_name = sim.draw_choice([b"Content-Length", "content-length", b"CONTENT-LENGTH"], "cl-name") if p.cl_redeclared_badly else None
     p.mode = sim.draw_choice(["direct", "direct", "producer"], "wmode")
     p.first_sync = sim.draw_int(0, 2, "sync")     # 0: everything at process() time; 1: first write at process(); 2: nothing at process()
     return p
@@ -178,33 +252,45 @@ def run(sim):
     # other clauses are exercised on full-length runs whether or not that defect is present
     avoid_reason_breaks = not sim.draw_choice([False, True, True, True], "reason-breaks-allowed")
     hwm = sim.draw_choice([None, 40, 8, 200], "hwm")
+    sync_loss = sim.draw_bool(0.15, "sync-loss")    # the transport reports the loss from inside loseConnection() (as in-memory transports do)
     plans = [gen_plan(sim, i, avoid_reason_breaks) for i in range(nreq)]
-    reqs = []     # (method, version, close)
+    reqs = []     # (method, version, Connection value or None)
     stream = bytearray()
     bounds = []
     for i in range(nreq):
         last = i == nreq - 1
         method = sim.draw_choice([b"GET", b"HEAD", b"POST", b"GET"], "method")
-        version, close = b"HTTP/1.1", False
+        version, conn = b"HTTP/1.1", None
         if last:
             k = sim.draw_int(0, 3, "lastkind")
             if k == 1:
                 version = b"HTTP/1.0"
             elif k == 2:
-                close = True
+                conn = b"close"
+        elif sim.draw_bool(0.06, "early-http10"):
+            version = b"HTTP/1.0"          # not only the last request of a pipeline may be HTTP/1.0
+        if conn is None and sim.draw_bool(0.3 if (last or version == b"HTTP/1.0") else 0.08, "conn-header"):
+            conn = sim.draw_choice(CONN_VALUES, "conn-value")
         w = method + b" /r%d " % i + version + b"\r\nHost: h.test\r\n"
-        if close:
-            w += b"Connection: close\r\n"
+        if conn is not None:
+            w += sim.draw_choice([b"Connection", b"connection", b"CONNECTION"], "conn-name") + b": " + conn + b"\r\n"
         if method == b"POST":
             w += b"Content-Length: 3\r\n\r\nabc"
         else:
             w += b"\r\n"
         stream += w
         bounds.append(len(stream))
-        reqs.append((method, version, close))
+        reqs.append((method, version, conn))
     stream = bytes(stream)
-    sim.config = {"nreq": nreq, "avoid_reason_breaks": avoid_reason_breaks, "hwm": hwm,
-                  "codes": [p.code for p in plans], "methods": [r[0].decode() for r in reqs]}
+    # the server must answer every request up to and including the first one after which it may close the connection
+    must_answer = nreq
+    for i, (method, version, conn) in enumerate(reqs):
+        if conn_allows_close(version, conn):
+            must_answer = i + 1
+            break
+    sim.config = {"nreq": nreq, "avoid_reason_breaks": avoid_reason_breaks, "hwm": hwm, "sync_loss": sync_loss,
+                  "codes": [p.code for p in plans], "methods": [r[0].decode() for r in reqs],
+                  "versions": [r[1].decode() for r in reqs], "connection": [None if r[2] is None else r[2].decode() for r in reqs]}
 
     active = []     # at most one: [plan, request, remaining writes, producer]
     hostile = [0]
@@ -236,6 +322,7 @@ def run(sim):
         plan = plans[idx]
         plan.finished = False
         plan.expected = {}          # lower name -> [normalised values]
+        plan.unknown = set()        # lower names on which there is no verdict (a value outside every encoding was accepted)
         plan.reason_refused = False
         plan.req_method = req.method
         try:
@@ -247,22 +334,39 @@ def run(sim):
             note_hostile(plan.reason)
         for op, name, value in plan.header_ops:
             valid = name_valid(name)
+            values = value if op == "setmulti" else [value]
+            good_value = all(encodable(v) for v in values)
             try:
                 if op == "set":
                     req.setHeader(name, value)
-                else:
+                elif op == "add":
                     req.responseHeaders.addRawHeader(name, value)
+                else:
+                    req.responseHeaders.setRawHeaders(name, value)
                 raised = None
             except Exception as e:
                 raised = type(e).__name__
             sim.event("header", idx, op, repr(name), "refused" if raised else "accepted")
             sim.check("invalid-name-accepted", valid or raised is not None, op, lambda: "name %r was accepted" % (name,))
-            sim.check("valid-name-refused", not valid or raised is None, op, lambda: "name %r value %r raised %s" % (name, value, raised))
+            sim.check("valid-name-refused", not (valid and good_value) or raised is None, op, lambda: "name %r value %r raised %s" % (name, value, raised))
+            if valid and not good_value:
+                key = (name if isinstance(name, bytes) else name.encode("latin-1")).lower()
+                if raised is not None:
+                    # a refused set call changes nothing: earlier values of that field survive, no value of the refused call is emitted
+                    # (plan.expected stays as it is)
+                    sim.fault("set_call_refused_unencodable_value")
+                    if key in plan.expected:
+                        sim.probe("refused_call_after_earlier_value_of_that_field")
+                    if op == "setmulti" and encodable(values[0]):
+                        sim.probe("refused_list_with_good_values_before_the_bad_one")
+                else:
+                    plan.unknown.add(key)      # accepted: the statement does not say what such text becomes on the wire; no verdict on this field
+                continue
             if raised is not None and not valid:
                 # an application that catches the refusal and retries (or a second request reflecting the same
                 # name) must be refused again: refusal must not depend on the name having been seen before
                 try:
-                    req.responseHeaders.addRawHeader(name, value)
+                    req.responseHeaders.addRawHeader(name, values[0] if encodable(values[0]) else b"v")
                     again = None
                 except Exception as e:
                     again = type(e).__name__
@@ -270,16 +374,26 @@ def run(sim):
                 sim.check("invalid-name-accepted", again is not None, "retry", lambda: "name %r was refused at first and accepted when used again" % (name,))
             if raised is None:
                 key = (name if isinstance(name, bytes) else name.encode("latin-1")).lower()
-                nv = http1.norm_value(_b(value))
-                note_hostile(_b(value))
-                if op == "set":
-                    plan.expected[key] = [nv]
+                nvs = [http1.norm_value(_b(v)) for v in values]
+                for v in values:
+                    note_hostile(_b(v))
+                if op == "add":
+                    plan.expected.setdefault(key, []).extend(nvs)
                 else:
-                    plan.expected.setdefault(key, []).append(nv)
+                    plan.expected[key] = nvs
         for c in plan.cookies:
+            kw = dict(expires=c.get("expires"), domain=c.get("domain"), path=c.get("path"), max_age=c.get("max_age"),
+                      comment=c.get("comment"), secure=c["secure"], httpOnly=c["httpOnly"], sameSite=c["sameSite"])
+            if not all(encodable(x) for x in c.values() if isinstance(x, (bytes, str))):
+                try:
+                    req.addCookie(c["k"], c["v"], **kw)
+                    plan.unknown.add(b"set-cookie")      # accepted: no verdict on the cookies of this response
+                except Exception:
+                    # refused: the cookies added before survive, nothing of this one is emitted
+                    sim.fault("cookie_refused_unencodable_part")
+                continue
             with sim.guard("cookie-raised", "addCookie"):
-                req.addCookie(c["k"], c["v"], expires=c.get("expires"), domain=c.get("domain"), path=c.get("path"), max_age=c.get("max_age"),
-                              comment=c.get("comment"), secure=c["secure"], httpOnly=c["httpOnly"], sameSite=c["sameSite"])
+                req.addCookie(c["k"], c["v"], **kw)
             plan.expected.setdefault(b"set-cookie", []).append(http1.norm_value(expected_cookie(c)))
             for x in c.values():
                 if isinstance(x, (bytes, str)):
@@ -288,6 +402,12 @@ def run(sim):
         if plan.explicit_cl:
             req.setHeader(b"Content-Length", b"%d" % total)
             plan.expected[b"content-length"] = [b"%d" % total]
+            if plan.cl_redeclared_badly:
+                try:
+                    req.setHeader(plan.cl_bad_name, "%d" % total + "\udce9")
+                    plan.unknown.add(b"content-length")
+                except Exception:
+                    sim.fault("content_length_redeclaration_refused")      # the declared length stays in force
         rest = list(plan.writes)
         prod = None
         if plan.mode == "producer":
@@ -300,7 +420,7 @@ def run(sim):
         elif plan.first_sync == 1 and rest:
             app_step()
 
-    srv = H.Server(sim, app, timeout=3600, hwm=hwm)
+    srv = H.Server(sim, app, timeout=3600, hwm=hwm, sync_loss=sync_loss)
     pieces = net.cut(sim, stream, boundaries=bounds)
     queue = list(pieces)
     ticks = 0
@@ -308,7 +428,7 @@ def run(sim):
         while True:
             sim.step(5000)
             ev = []
-            if queue and srv.can_deliver():
+            if queue and srv.can_deliver() and not srv.t.disconnecting:     # a transport that was told to close reads no more
                 ev.append(("deliver", 4))
             if active and (active[0][3] is None or active[0][3].ready()):
                 ev.append(("app", 4))
@@ -332,16 +452,20 @@ def run(sim):
                 sim.sim_time += dt
     if srv.t.log.count("pause"):
         sim.probe("producer_paused_by_transport", srv.t.log.count("pause"))
-    stuck = bool(active) or bool(queue)
-    closed = srv.t.close_at is not None
+    closed = srv.t.close_at is not None          # the server itself asked for the connection to end
+    stuck = bool(active) or (bool(queue) and not closed)
+    nd = len(srv.delivered)                      # requests that reached the application; each of them owes exactly one response
+    if closed and nd < nreq:
+        sim.probe("server_closed_before_last_pipelined_request")
     srv.lose(clean=True)
     wire = bytes(srv.t.written)
     sim.event("wire", len(wire), wire)
 
     def detail():
-        return "requests=%r\n plans=%r\n wire=%r" % (reqs, [(p.code, p.reason, p.header_ops, p.cookies, p.writes, p.explicit_cl, p.mode) for p in plans], wire)
+        return "requests=%r delivered=%d server-closed=%s\n plans=%r\n wire=%r" % (
+            reqs, nd, closed, [(p.code, p.reason, p.header_ops, p.cookies, p.writes, p.explicit_cl, p.mode) for p in plans], wire)
 
-    sim.check("responses-missing", not stuck and len(srv.delivered) == nreq and all(getattr(p, "finished", False) for p in plans), "stuck", detail)
+    sim.check("responses-missing", not stuck and must_answer <= nd <= nreq and all(getattr(p, "finished", False) for p in plans[:nd]), "stuck", detail)
 
     def canon(name, v):
         """comparison form of a field value: line breaks -> SP, SP runs collapsed, OWS stripped; for Set-Cookie additionally
@@ -353,8 +477,8 @@ def run(sim):
 
     def check_response(i, plan, pos):
         """-> (failure or None, parsed response or None).  failure = (clause, witness, detail)."""
-        method, version, close = reqs[i]
-        last = i == nreq - 1
+        method, version, _conn = reqs[i]
+        last = i == nd - 1          # the last response on this connection
         nobody = method == b"HEAD" or plan.code in http1.NO_BODY_STATUS
         cls = "head" if method == b"HEAD" else "no-body-code" if plan.code in http1.NO_BODY_STATUS else \
             "http10" if version == b"HTTP/1.0" else "explicit-cl" if plan.explicit_cl else "chunked"
@@ -364,6 +488,9 @@ def run(sim):
         r = rs[0]
         if r.framing == "close" and not last:
             return ("framing", "close-delimited-not-last", "response %d" % i), r
+        if r.framing == "close" and not closed:
+            # neither Content-Length nor chunked (nor a status/method without body): only the end of the connection can delimit it
+            return ("framing", "close-delimited-connection-left-open:" + cls, "response %d: nothing delimits the body and the server did not close" % i), r
         if r.code != plan.code:
             return ("status", "code", "response %d: %r != %r" % (i, r.code, plan.code)), r
         if plan.reason is not None and not plan.reason_refused and http1.norm_value(r.reason) != http1.norm_value(plan.reason):
@@ -377,9 +504,12 @@ def run(sim):
             return ("framing", "transfer-encoding:" + cls, "response %d: Transfer-Encoding %r" % (i, te)), r
         if not (te is not None or nobody or plan.explicit_cl or last or r.framing != "close"):
             return ("framing", "unframed:" + cls, "response %d" % i), r
-        if conn not in (None, [b"close"]):
+        if conn is not None and [v.lower() for v in conn] not in ([b"close"], [b"keep-alive"]):
             return ("headers", "connection", "response %d: Connection %r" % (i, conn)), r
         want = dict((n, [canon(n, v) for v in vs]) for n, vs in plan.expected.items())
+        for n in plan.unknown:
+            got.pop(n, None)
+            want.pop(n, None)
         if got != want:
             names = sorted(set(got) | set(want))
             bad = [n for n in names if got.get(n) != want.get(n)][0]
@@ -402,7 +532,7 @@ def run(sim):
 
     pos = 0
     parsed = []
-    for i, plan in enumerate(plans):
+    for i, plan in enumerate(plans[:nd]):
         has_break = plan.reason is not None and (b"\r" in plan.reason or b"\n" in plan.reason) and not plan.reason_refused
         if has_break:
             sim.probe("reason_with_line_break")
@@ -417,16 +547,18 @@ def run(sim):
         fail("extra-bytes", "after-last-response", "%r\n%s" % (wire[pos:], detail()))
 
     # independent parser
-    clean = all(H.h11_clean(v) for p in plans for vs in p.expected.values() for v in vs) and \
-        all(p.reason is None or H.h11_clean(p.reason) for p in plans)
-    if clean:
-        hs, hst = H.h11_responses(wire, reqs, eof=True)
+    clean = all(H.h11_clean(v) for p in plans[:nd] for vs in p.expected.values() for v in vs) and \
+        all(p.reason is None or H.h11_clean(p.reason) for p in plans[:nd]) and not any(p.unknown for p in plans[:nd])
+    # h11's client side ends its cycle after an HTTP/1.0 exchange; a server that went on after one cannot be followed with it
+    followable = all(version == b"HTTP/1.1" for (_m, version, _c) in reqs[:nd - 1])
+    if clean and followable:
+        hs, hst = H.h11_responses(wire, [(m, v, i == nd - 1 and closed) for i, (m, v, _c) in enumerate(reqs[:nd])], eof=True)
         sim.probe("h11_checked")
 
         def hdetail():
             return "h11 status=%s responses=%r\n%s" % (hst, hs, detail())
 
-        if not (hst == "ok" and len(hs) == nreq):
+        if not (hst == "ok" and len(hs) == nd):
             fail("h11-disagrees", "parse", hdetail())
         for i, (h, r) in enumerate(zip(hs, parsed)):
             hh = sorted((n, http1.norm_value(v)) for n, v in h[2])
@@ -437,9 +569,9 @@ def run(sim):
                 fail("h11-disagrees", "headers", hdetail())
             if h[3] != r.body:
                 fail("h11-disagrees", "body", hdetail())
-    else:
+    elif not clean:
         sim.probe("h11_skipped_unclean_value")
-    sim.state((nreq, tuple(p.code in http1.NO_BODY_STATUS for p in plans), hwm, closed))
+    sim.state((nreq, nd, tuple(p.code in http1.NO_BODY_STATUS for p in plans[:nd]), hwm, closed, sync_loss))
     sim.nontrivial = bool(parsed) and hostile[0] > 0
 
 
@@ -455,5 +587,9 @@ MUTANTS = [
     'CAUGHT http.py Request.finish: drop the terminating `0\\r\\n\\r\\n` -> unparseable:chunked',
     'CAUGHT http.py Request.write: drop the NO_BODY_CODES branch (body emitted for 204/304) -> extra-bytes:after-last-response, unparseable:*',
     'SURVIVED (outside the statement) http.py checkPersistence: keep the connection open after `Connection: close` - persistence, not framing; the response bytes are unchanged',
+    'CAUGHT (round 4) http.py HTTPChannel.requestDone: non-persistent branch `self.loseConnection()` -> `pass` (an HTTP/1.0 response without Content-Length is never delimited) -> framing:close-delimited-connection-left-open:http10',
+    'CAUGHT (round 4) http.py checkPersistence: HTTP/1.0 + `Connection: keep-alive` made persistent -> framing:close-delimited-not-last, framing:close-delimited-connection-left-open:http10',
+    'CAUGHT (round 4) http_headers.py Headers.setRawHeaders: entry reset first, values appended one by one (a refused call wipes earlier values / emits the leading good values) -> headers:missing, headers:extra, framing:transfer-encoding:explicit-cl',
+    'CAUGHT (round 4) http.py Request.addCookie: cookie appended before the sameSite component is validated (a refused addCookie still emits the cookie) -> headers:cookie',
     'FIX-CHECK http.py HTTPChannel.writeHeaders: `reason` -> `_sanitizeLinearWhitespace(reason)`: reason-line-break disappears, 0 violations in 6000 runs (1782 responses with CR/LF in the reason)',
 ]
